@@ -115,7 +115,7 @@ Definition w_el (t : mtype) (z : Z) : stok :=
   | TI8 | TI16 | TI32 | TI64 => SI z
   | TU8 | TU16 | TU32 | TU64 | TP => SU z
   | TF => SF z | TD => SD z | TLD => SLD z
-  | TBLK _ | TRBLK => SEOI            (* unreachable: wrong_type_p rejects them in MIR_new_data *)
+  | TBLK _ | TRBLK | TUNDEF => SEOI   (* unreachable: wrong_type_p rejects them in MIR_new_data *)
   end.
 
 Definition w_named (plain named : string) (n : option name) : list stok :=
@@ -268,7 +268,8 @@ Fixpoint r_types (n : nat) (ts : list stok) : option (list mtype * list stok) :=
   match n with
   | O => Some ([], ts)
   | S k => match ts with
-           | SType t :: r => match r_types k r with Some (l, r') => Some (t :: l, r') | None => None end
+           | SType t :: r => if is_undef t then None else          (* read_token knows no TUNDEF tag *)
+                             match r_types k r with Some (l, r') => Some (t :: l, r') | None => None end
            | _ => None
            end
   end.
@@ -280,6 +281,7 @@ Fixpoint r_args (fuel : nat) (ts : list stok) : option (list var * list stok) :=
       match ts with
       | SEOI :: r => Some ([], r)
       | SType t :: SName n :: r =>
+          if is_undef t then None else
           if all_blk_type_p t then
             match r with
             | SU sz :: r1 => match r_args f r1 with Some (l, r') => Some (mkVar t n sz :: l, r') | None => None end
@@ -312,6 +314,7 @@ Fixpoint r_locals (fuel : nat) (ts : list stok) : option (list (mtype * name) * 
       match ts with
       | SEOI :: r => Some ([], r)
       | SType t :: SName n :: r =>
+          if is_undef t then None else
           match r_locals f r with Some (l, r') => Some ((t, n) :: l, r') | None => None end
       | _ => None
       end
@@ -324,6 +327,7 @@ Fixpoint r_globals (fuel : nat) (ts : list stok) : option (list (mtype * name * 
       match ts with
       | SEOI :: r => Some ([], r)
       | SType t :: SName n :: SName h :: r =>
+          if is_undef t then None else
           match r_globals f r with Some (l, r') => Some ((t, n, h) :: l, r') | None => None end
       | _ => None
       end
@@ -482,6 +486,7 @@ Definition r_step (fuel : nat) (st : rstate) (ts : list stok) : step_res :=
         item_step st labs r
           match r_optname (is_kw "ndata" k) r with
           | Some (n, SType t :: r1) =>
+              if is_undef t then None else
               match r_els t r1 with Some (els, r2) => Some (ItData n t els, r2) | None => None end
           | _ => None
           end
@@ -680,7 +685,7 @@ Definition enc_tok (b : btok) : bytes :=
   | BStr i => enc_idx TAG_STR1 i
   | BLab n => enc_idx TAG_LAB1 n
   | BMem k a => [memtag k a]
-  | BType t => [(TAG_TI8 + mtype_num t)%N]
+  | BType t => if is_undef t then [TAG_TUNDEF] else [(TAG_TI8 + mtype_num t)%N]
   | BEOI => [TAG_EOI]
   | BEOF => [TAG_EOFILE]
   end.
@@ -739,6 +744,7 @@ Definition dec_tok (bs : bytes) : option (btok * bytes) :=
         match mtype_of_num (c - TAG_TI8) with Some t => Some (BType t, r) | None => None end
       else if N.eqb c TAG_EOI then Some (BEOI, r)
       else if N.eqb c TAG_EOFILE then Some (BEOF, r)
+      else if N.eqb c TAG_TUNDEF then Some (BType TUNDEF, r)      (* read_type only: memory operand *)
       else match memtag_of c with Some (k, a) => Some (BMem k a, r) | None => None end
   end.
 
